@@ -8,6 +8,9 @@ import Mwp.Wire
 import Mwp.Model.Bound
 import Mwp.Model.DeltaGraph
 import Mwp.Model.Choices
+import Mwp.WireAst
+import Mwp.Model.Analysis
+import Mwp.Spec.Calculus
 import Mwp.Spec.BoundText
 open Lean Mwp Mwp.Wire
 
@@ -208,6 +211,159 @@ def checkC04 (j : Json) : R Json := do
     if !want.isEmpty then return viol "first-missing" []
   pure (ok (Json.mkObj [("n_valid", jNat want.length)]))
 
+
+-- ---------------------------------------------------------------- syntax / analysis
+def jStrs (l : List String) : Json := jList Json.str l
+def jRaised (e : String) : Json := ok (Json.mkObj [("raised", Json.str e)])
+def jMatrix (m : Matrix) : Json := jList (jList jPoly) m
+def jRelation (r : Relation) : Json := Json.mkObj [("vars", jStrs r.vars), ("mat", jMatrix r.mat)]
+def relationOf (j : Json) : R Relation := do
+  let vars ← strListOf (← field j "vars")
+  let mat ← (← fArr j "mat").mapM fun row => do (← arrOf row).mapM polyOf
+  pure ⟨vars, mat⟩
+def jSMat (m : List (List Scalar)) : Json := jList (fun row => Json.str (String.join (row.map Scalar.toStr))) m
+def smatOf (j : Json) : R (List (List Scalar)) := do
+  (← arrOf j).mapM fun row => do
+    let s ← strOf row
+    s.toList.mapM fun ch => match Scalar.ofStr? (String.singleton ch) with
+      | some x => pure x
+      | none => throw "bad scalar char"
+
+def variablesOp (j : Json) : R Json := do
+  let n ← nodeOfJson (← field j "ast")
+  match Syntax.variables n with
+  | .ok vs => pure (ok (jStrs vs))
+  | .error e => pure (jRaised e)
+
+def coverageOp (j : Json) : R Json := do
+  let n ← nodeOfJson (← field j "ast")
+  match Syntax.coverage n with
+  | .ok (k, m) => pure (ok (Json.mkObj [("omit", jNat k), ("mod", jNodeAst m)]))
+  | .error e => pure (jRaised e)
+
+def findLoopsOp (j : Json) : R Json := do
+  let n ← nodeOfJson (← field j "ast")
+  match Syntax.loopsN n with
+  | .ok ls => pure (ok (jList jNodeAst ls))
+  | .error e => pure (jRaised e)
+
+def loopCompatOp (j : Json) : R Json := do
+  let n ← nodeOfJson (← field j "ast")
+  match Syntax.loopCompat n with
+  | .ok (b, x) => pure (ok (Json.arr #[Json.bool b, match x with | some s => Json.str s | none => Json.null]))
+  | .error e => pure (jRaised e)
+
+/-- accepted choice vectors of a Choices object, all of 3^index (callers keep index small) -/
+def acceptedOf (c : Choices.T) (index : Nat) : List (List Nat) :=
+  (allVectors Gen.domain index).filter (Choices.isValid c)
+
+def funcOp (j : Json) : R Json := do
+  let n ← nodeOfJson (← field j "ast")
+  let stop ← fBool j "stop"
+  let tabulate := (fOpt j "tabulate").isSome
+  match Analysis.func n stop with
+  | .error e => pure (jRaised e)
+  | .ok r =>
+    let acc := match r.choices with
+      | some c => if tabulate && r.index ≤ 7 then jList (jList jNat) (acceptedOf c r.index) else Json.null
+      | none => Json.null
+    pure (ok (Json.mkObj [
+      ("name", Json.str r.name), ("infinite", Json.bool r.infinite), ("variables", jStrs r.variables),
+      ("relation", match r.relation with | some rel => jRelation rel | none => Json.null),
+      ("has_choices", Json.bool r.choices.isSome), ("accepted", acc),
+      ("index", jNat r.index),
+      ("inf_flows", match r.infFlows with | some s => Json.str s | none => Json.null),
+      ("skipped", jStrs r.skipped)]))
+
+def boundAtOp (j : Json) : R Json := do
+  let r ← relationOf (← field j "relation")
+  let c ← natListOf (← field j "choice")
+  pure (ok (jList (fun (v, x, y, z) => Json.arr #[Json.str v, jStrs x, jStrs y, jStrs z]) (Analysis.boundAt r c)))
+
+def applyChoiceOp (j : Json) : R Json := do
+  let r ← relationOf (← field j "relation")
+  let c ← natListOf (← field j "choice")
+  pure (ok (jSMat (r.applyChoice c)))
+
+/-- spec: desugar + table of sem over all 3^arity choices -/
+def semTableOp (j : Json) : R Json := do
+  let n ← nodeOfJson (← field j "ast")
+  let U ← strListOf (← field j "vars")
+  match Spec.desugarFunc n with
+  | none => pure (ok (Json.mkObj [("supported", Json.bool false)]))
+  | some cmd =>
+    let k := cmd.arity
+    let table := (Spec.allChoices k).map fun c =>
+      match Spec.sem U cmd 0 c with
+      | some (_, m) => jSMat m
+      | none => Json.null
+    pure (ok (Json.mkObj [("supported", Json.bool true), ("arity", jNat k), ("table", Json.arr table.toArray)]))
+
+def columnsOf (U : List String) (m : List (List Scalar)) : List (String × List String × List String × List String) :=
+  (U.zipIdx).map fun (name, col) =>
+    (name, Bound.columnTriple ((U.zipIdx).map fun (rv, row) => (rv, (m.getD row []).getD col .o)))
+
+/-- C01/C02/C15 predicate on what the implementation reported for one function.
+    Fields: ast, vars (reported variables), infinite, index, and when not infinite:
+    valid = string over '0'/'1' for all 3^index choices (lexicographic), mats = list of
+    [choice, matrix] pairs obtained with the implementation's apply_choice, first, bound. -/
+def checkFunc (j : Json) : R Json := do
+  let n ← nodeOfJson (← field j "ast")
+  let U ← strListOf (← field j "vars")
+  let infinite ← fBool j "infinite"
+  let index ← fNat j "index"
+  match Spec.desugarFunc n with
+  | none => pure (ok (Json.mkObj [("supported", Json.bool false)]))
+  | some cmd =>
+    let k := cmd.arity
+    let early := (fOpt j "early_exit").isSome
+    if !early && k != index then
+      return viol "index-differs" [("reported", jNat index), ("binary_operations", jNat k)]
+    let cs := Spec.allChoices k
+    let table := cs.map fun c => (c, Spec.sem U cmd 0 (Spec.relabel cmd c))
+    let derivable := table.filter (fun x => x.2.isSome)
+    if infinite then
+      match derivable with
+      | (c, _) :: _ => return viol "reported-infinite-but-derivation-exists" [("choice", jList jNat c)]
+      | [] => return ok (Json.mkObj [("supported", Json.bool true), ("n_derivable", jNat 0), ("arity", jNat k)])
+    if derivable.isEmpty then
+      return viol "reported-finite-but-no-derivation" []
+    let valid ← fStr j "valid"
+    let flags := valid.toList
+    if flags.length != cs.length then throw "valid string has wrong length"
+    for ((c, m), f) in table.zip flags do
+      if f == '1' && m.isNone then
+        return viol "valid-choice-not-derivable" [("choice", jList jNat c)]
+      if f == '0' && m.isSome then
+        return viol "derivable-choice-rejected" [("choice", jList jNat c)]
+    for pair in ← fArr j "mats" do
+      match ← arrOf pair with
+      | [cj, mj] =>
+        let c ← natListOf cj
+        let got ← smatOf mj
+        match Spec.sem U cmd 0 (Spec.relabel cmd c) with
+        | some (_, want) =>
+          if got != want then
+            return viol "matrix-differs" [("choice", cj), ("got", jSMat got), ("want", jSMat want)]
+        | none => pure ()
+      | _ => throw "bad mats entry"
+    match fOpt j "first", fOpt j "bound" with
+    | some fj, some bj =>
+      let f ← natListOf fj
+      match Spec.sem U cmd 0 (Spec.relabel cmd f) with
+      | none => return viol "first-choice-not-derivable" [("choice", fj)]
+      | some (_, m) =>
+        let want := columnsOf U m
+        let got ← (← arrOf bj).mapM fun e => do
+          match ← arrOf e with
+          | [v, x, y, z] => pure (← strOf v, ← strListOf x, ← strListOf y, ← strListOf z)
+          | _ => throw "bad bound entry"
+        if got != want then
+          return viol "bound-differs" [("first", fj),
+            ("want", jList (fun (v, x, y, z) => Json.arr #[Json.str v, jStrs x, jStrs y, jStrs z]) want)]
+    | _, _ => pure ()
+    pure (ok (Json.mkObj [("supported", Json.bool true), ("n_derivable", jNat derivable.length), ("arity", jNat k)]))
+
 end Ops
 
 def dispatch (op : String) (j : Json) : R Json :=
@@ -219,6 +375,15 @@ def dispatch (op : String) (j : Json) : R Json :=
   | "model.mono_prod" => Ops.monoProd j
   | "model.mono_new" => Ops.monoNew j
   | "check.C09" => Ops.checkC09 j
+  | "model.variables" => Ops.variablesOp j
+  | "model.coverage" => Ops.coverageOp j
+  | "model.find_loops" => Ops.findLoopsOp j
+  | "model.loop_compat" => Ops.loopCompatOp j
+  | "model.func" => Ops.funcOp j
+  | "model.bound_at" => Ops.boundAtOp j
+  | "model.apply_choice" => Ops.applyChoiceOp j
+  | "spec.sem_table" => Ops.semTableOp j
+  | "check.func" => Ops.checkFunc j
   | "model.choices" => Ops.choicesModel j
   | "model.choices_intersect" => Ops.choicesIntersect j
   | "check.C04" => Ops.checkC04 j
